@@ -49,7 +49,7 @@ def reexec_pinned():
 
 def _case_worker(args):
     modname, seed, root, params = args
-    faulthandler.dump_traceback_later(params.get('case_timeout', 300),
+    faulthandler.dump_traceback_later(params.get('case_timeout', 300) + 30,
                                       exit=True)
     try:
         mod = importlib.import_module('bfgsim.' + modname)
@@ -142,51 +142,90 @@ class Check:
 
     # -- search -----------------------------------------------------------------
     def search(self):
+        """One forked process (own session) per case, at most `jobs` at a
+        time; a case that exceeds its wall cap is killed with its whole
+        process group and counted as a harness error, never as a verdict."""
+        import pickle
+        import signal
         t_end = time.monotonic() + self.budget
         params = dict(self.params)
-        ctx = multiprocessing.get_context('fork')
-        index = 0
-        pending = {}
+        cap = params.get('case_timeout', 300)
         min_cases = self.params.get('min_cases',
                                     TIERS[self.tier]['min_cases'])
-        with cf.ProcessPoolExecutor(max_workers=self.jobs,
-                                    mp_context=ctx) as pool:
-            def submit():
-                nonlocal index
-                s = derive_seed(self.seed, self.prop, index)
-                root = os.path.join(self.scratch, 'w{}'.format(s))
-                fut = pool.submit(_case_worker,
-                                  (MODULES[self.prop], s, root, params))
-                pending[fut] = s
-                index += 1
+        os.makedirs(self.scratch, exist_ok=True)
+        running = {}       # pid -> (seed, start, result path)
+        index = 0
 
-            while len(pending) < self.jobs * 2:
-                submit()
-            while pending:
-                done, _ = cf.wait(list(pending), timeout=5,
-                                  return_when=cf.FIRST_COMPLETED)
-                for fut in done:
-                    s = pending.pop(fut)
+        def spawn():
+            nonlocal index
+            s = derive_seed(self.seed, self.prop, index)
+            index += 1
+            root = os.path.join(self.scratch, 'w{}'.format(s))
+            res = os.path.join(self.scratch, 'r{}.pkl'.format(s))
+            sys.stdout.flush()
+            sys.stderr.flush()
+            pid = os.fork()
+            if pid == 0:
+                code = 1
+                try:
+                    os.setsid()
+                    out = _case_worker((MODULES[self.prop], s, root, params))
+                    with open(res + '.tmp', 'wb') as f:
+                        pickle.dump(out, f)
+                    os.rename(res + '.tmp', res)
+                    code = 0
+                except BaseException:   # noqa
+                    traceback.print_exc()
+                finally:
+                    os._exit(code)
+            running[pid] = (s, time.monotonic(), res, root)
+
+        def want_more():
+            if len(self.harness_errors) >= 5:
+                return False
+            if len([c for c in self.cases if c['violations']]) >= 40:
+                return False
+            return (time.monotonic() < t_end or
+                    len(self.cases) + len(running) < min_cases)
+
+        while True:
+            while len(running) < self.jobs and want_more():
+                spawn()
+            if not running:
+                break
+            progressed = False
+            for pid in list(running):
+                s, t0, res, root = running[pid]
+                got, status = os.waitpid(pid, os.WNOHANG)
+                if got:
+                    progressed = True
+                    del running[pid]
                     try:
-                        kind, data = fut.result()
-                    except Exception as e:   # worker died
+                        with open(res, 'rb') as f:
+                            kind, data = pickle.load(f)
+                        os.remove(res)
+                    except Exception:
                         kind, data = 'harness', {
-                            'seed': s, 'error': 'worker died: {!r}'.format(e)}
+                            'seed': s, 'error': 'case process died with '
+                            'status {}'.format(status)}
                     if kind == 'harness':
                         self.harness_errors.append(data)
                     else:
                         self.cases.append(data)
-                    more = (time.monotonic() < t_end or
-                            len(self.cases) < min_cases)
-                    if more and len(self.harness_errors) < 5 and \
-                       len([c for c in self.cases if c['violations']]) < 40:
-                        submit()
-                if not done and time.monotonic() > t_end + 600:
-                    self.harness_errors.append(
-                        {'seed': None, 'error': 'pool stuck'})
-                    for f in pending:
-                        f.cancel()
-                    break
+                elif time.monotonic() - t0 > cap:
+                    progressed = True
+                    try:
+                        os.killpg(pid, signal.SIGKILL)
+                    except ProcessLookupError:
+                        pass
+                    os.waitpid(pid, 0)
+                    del running[pid]
+                    shutil.rmtree(root, ignore_errors=True)
+                    self.harness_errors.append({
+                        'seed': s, 'error': 'case exceeded its wall cap of '
+                        '{} s and was killed'.format(cap)})
+            if not progressed:
+                time.sleep(0.02)
 
     # -- violations ---------------------------------------------------------------
     def report_violation(self, v, replay, pinned=None):
